@@ -7,6 +7,7 @@ mod readers;
 mod rt;
 mod selftest;
 mod spec;
+mod tarfmt;
 
 use rt::{Ctx, Tier};
 
